@@ -309,3 +309,87 @@ Proof.
   all: try (split; [auto|]; first [left; reflexivity | right; split; [tauto|discriminate]]).
   all: try (destruct H as [_ [H|[[H|[[? ?]|H]] Hc]]]; try discriminate; try congruence).
 Qed.
+
+(* ------------------------------------------------------------------ totality (C10): no reader panics *)
+Lemma certs_of_no_panic : forall p n, certs_of p n <> Panic.
+Proof.
+  intros p n. unfold certs_of, read_vector.
+  repeat (match goal with |- context [match ?x with _ => _ end] => destruct x end); discriminate.
+Qed.
+
+Ltac no_panic_tac :=
+  repeat (first [ rewrite decrypt_certs_eq
+                | match goal with |- context [match certs_of ?p ?n with _ => _ end] =>
+                    let E := fresh in destruct (certs_of p n) as [[? ?]| |] eqn:E;
+                    [ | | exfalso; exact (certs_of_no_panic _ _ E)] end
+                | match goal with |- context [match ?x with _ => _ end] => destruct x end ]);
+  cbn [snd]; try discriminate.
+
+Lemma read_client_hello_no_panic : forall O X T b, snd (read_client_hello O X T b) <> Panic.
+Proof. intros. unfold read_client_hello, squeeze, absorb. no_panic_tac. Qed.
+
+Lemma read_server_hello_no_panic : forall O X ek T b, snd (read_server_hello O X ek T b) <> Panic.
+Proof. intros. unfold read_server_hello, squeeze, absorb. no_panic_tac. Qed.
+
+Lemma replay_from_cookie_no_panic : forall O X ck c kc ip port, replay_from_cookie O X ck c kc ip port <> Panic.
+Proof. intros. unfold replay_from_cookie, squeeze, absorb. no_panic_tac. Qed.
+
+Lemma parse_sni_no_panic : forall p, parse_sni p <> Panic.
+Proof. intros. unfold parse_sni. no_panic_tac. Qed.
+
+Lemma read_client_ack_no_panic : forall O X ck ip port b, read_client_ack O X ck ip port b <> Panic.
+Proof.
+  intros. unfold read_client_ack, squeeze, absorb, decrypt, bind.
+  repeat (first
+    [ match goal with |- context [match replay_from_cookie ?a ?b ?c ?d ?e ?f ?g with _ => _ end] =>
+        let E := fresh in destruct (replay_from_cookie a b c d e f g) eqn:E;
+        [ | | exfalso; exact (replay_from_cookie_no_panic _ _ _ _ _ _ _ E)] end
+    | match goal with |- context [match parse_sni ?p with _ => _ end] =>
+        let E := fresh in destruct (parse_sni p) eqn:E; [ | | exfalso; exact (parse_sni_no_panic _ E)] end
+    | match goal with |- context [match ?x with _ => _ end] => destruct x end ]); discriminate.
+Qed.
+
+Lemma read_server_auth_no_panic : forall O X ce pol T b, snd (read_server_auth O X ce pol T b) <> Panic.
+Proof. intros. unfold read_server_auth, squeeze, absorb. no_panic_tac. Qed.
+
+Lemma read_response_hidden_no_panic : forall O X ek cs pol T b, snd (read_response_hidden O X ek cs pol T b) <> Panic.
+Proof. intros. unfold read_response_hidden, squeeze, absorb. no_panic_tac. Qed.
+
+Lemma read_client_auth_pre_no_panic : forall b, read_client_auth_pre b <> Panic.
+Proof. intros. unfold read_client_auth_pre. no_panic_tac. Qed.
+
+Lemma read_client_auth_no_panic : forall O X se pol sid T b, snd (read_client_auth O X se pol sid T b) <> Panic.
+Proof.
+  intros. unfold read_client_auth.
+  destruct (read_client_auth_pre b) eqn:E; cbn [snd]; try discriminate.
+  - unfold squeeze, absorb. no_panic_tac.
+  - exfalso. exact (read_client_auth_pre_no_panic _ E).
+Qed.
+
+(* the hidden request reader panics exactly when handed fewer than 4 bytes (b[2], b[3] are
+   read before any length check); readPacket never does that *)
+Lemma read_request_hidden_no_panic : forall O X certs pol now T b,
+  4 <= len b -> snd (read_request_hidden O X certs pol now T b) <> Panic.
+Proof.
+  intros O X certs pol now T b Hl. unfold read_request_hidden.
+  destruct (len b <? 4) eqn:E; [apply N.ltb_lt in E; lia|].
+  cbv zeta. unfold squeeze, decrypt. no_panic_tac.
+Qed.
+
+Lemma read_request_hidden_panics_below_4 : forall O X certs pol now T b,
+  len b < 4 -> snd (read_request_hidden O X certs pol now T b) = Panic.
+Proof.
+  intros. unfold read_request_hidden. destruct (len b <? 4) eqn:E; [reflexivity|apply N.ltb_ge in E; lia].
+Qed.
+
+Lemma write_server_auth_no_panic : forall O X T sid epub es ss ceph leaf inter,
+  snd (write_server_auth O X T sid epub es ss ceph leaf inter) <> Panic.
+Proof. intros. unfold write_server_auth, squeeze, absorb, encrypt_certs, encrypt. no_panic_tac. Qed.
+
+Lemma write_response_hidden_no_panic : forall O X T sid ect ek ss cpk leaf inter,
+  snd (write_response_hidden O X T sid ect ek ss cpk leaf inter) <> Panic.
+Proof. intros. unfold write_response_hidden, squeeze, absorb, encrypt_certs, encrypt. no_panic_tac. Qed.
+
+Lemma write_client_auth_no_panic : forall O X T sid cs seph leaf inter,
+  snd (write_client_auth O X T sid cs seph leaf inter) <> Panic.
+Proof. intros. unfold write_client_auth, squeeze, absorb, encrypt_certs, encrypt. no_panic_tac. Qed.
